@@ -118,6 +118,19 @@ def run(tier, seed):
             chk.violation({'via': 'inst._compare', 'why': 'law(s) fail: ' + ','.join(bad), 'left': repr(vals[i][1]),
                            'right': repr(vals[j][1]), 'left_enc': encs[i], 'right_enc': encs[j], 'results': ab,
                            'swapped': ba})
+    # "a blank cell equals 0": against every number a blank answers all six operators as the number 0 does, on either side
+    zero = next((k for k, (kind, v) in enumerate(vals) if kind == 'num' and type(v) is int and v == 0), None)
+    blank = next((k for k, (kind, v) in enumerate(vals) if kind == 'blank'), None)
+    if zero is not None and blank is not None:
+        for j, (kind, v) in enumerate(vals):
+            if kind != 'num':
+                continue
+            for op in OPS:
+                for (x, y, x0, y0) in ((blank, j, zero, j), (j, blank, j, zero)):
+                    chk.count('laws:blank-as-zero')
+                    if impl[(x, y, op)] != impl[(x0, y0, op)]:
+                        chk.violation({'via': 'inst._compare', 'why': 'a blank does not compare with a number as 0 does', 'op': op, 'left': repr(vals[x][1]), 'right': repr(vals[y][1]),
+                                       'impl': impl[(x, y, op)], 'with_zero': impl[(x0, y0, op)], 'stream': 'blank-as-zero'})
     end_to_end(chk, vals, encs, tier)
     return chk.finish()
 
@@ -141,21 +154,34 @@ def end_to_end(chk, vals, encs, tier):
     E = type(realcode.runtime_instance()).EmptyCell
     idx = [i for i, (k, v) in enumerate(vals) if not (isinstance(v, float) and v == 0 and str(v) == '-0.0')]
     pairs = [(rng.choice(idx), rng.choice(idx)) for _ in range(n)]
+    # numeric-looking texts whose order as texts differs from their order as numbers, texts against numbers, blank against negatives
+    where = {}
+    for k, (kind, v) in enumerate(vals):
+        where.setdefault((type(v).__name__, repr(v)), k)
+    for a, b in (('10', '9'), ('9', '10'), ('5', '10'), ('-5', '9'), ('1.5', '1.25'), ('10', 9), (10, '9'), ('abc', 'B'), ('5', 5), ('a', 'A')):
+        ka, kb = where.get((type(a).__name__, repr(a))), where.get((type(b).__name__, repr(b)))
+        if ka is not None and kb is not None:
+            for _ in range(3):
+                pairs.append((ka, kb))
     values, formulas, meta = {}, [], []
     for row, (i, j) in enumerate(pairs):
         a, b = vals[i][1], vals[j][1]
         values[(0, row)] = None if isinstance(a, E) else a
         values[(1, row)] = None if isinstance(b, E) else b
+    row_ops = []
     for row, (i, j) in enumerate(pairs):
         op = rng.choice(OPS)
+        row_ops.append(op)
         formulas.append('=A%d%sB%d' % (row + 1, XL[op], row + 1))
         meta.append((i, j, op, 'cells'))
-    # literals
+    # literals: the same pair under the same operator
     lit_rows = []
+    twin = {}
     for row, (i, j) in enumerate(pairs):
         la, lb = literal_of(vals[i][1]), literal_of(vals[j][1])
         if la is not None and lb is not None and len(lit_rows) < n // 3:
-            op = rng.choice(OPS)
+            op = row_ops[row]
+            twin[len(formulas)] = row
             formulas.append('=%s%s%s' % (la, XL[op], lb))
             meta.append((i, j, op, 'literals'))
     outs = realcode.eval_formulas(formulas, values)
@@ -165,6 +191,13 @@ def end_to_end(chk, vals, encs, tier):
     n_cells = len(pairs)
     outs_ov = realcode.eval_formulas(formulas[:n_cells], blank_values, overrides=ov)
     inst = realcode.runtime_instance()
+    for k, row in twin.items():
+        chk.count('e2e:literal-vs-cell')
+        if outs[k] != outs[row]:
+            i, j, op, _ = meta[k]
+            chk.violation({'via': 'end-to-end', 'why': 'the result of a comparison depends on whether the operands are written as literals or held by cells',
+                           'formula_literals': formulas[k], 'formula_cells': formulas[row], 'left': repr(vals[i][1]), 'right': repr(vals[j][1]),
+                           'literals': outs[k], 'cells': outs[row], 'stream': 'route-independence'})
     for k, (i, j, op, via) in enumerate(meta):
         for route, got in (('workbook', outs[k]),) + ((('override', outs_ov[k]),) if k < n_cells else ()):
             a, b = vals[i][1], vals[j][1]
